@@ -51,6 +51,10 @@ def gen_cases(rng, tier):
       model = spec.numeric_species(rng, model)      # species labelled '9', '10', '2', '100'
     if groute == "api":
       model["api_containers"] = rng.choice([None, None, "tuple", "generator", "map", "amend_after_write"])
+      if i % 4:
+        # functions that return 0-d numpy arrays: fresh ones, integer-typed ones where the value is whole, memoised ones
+        # (the same array object again for the same separation - it must come back unchanged)
+        model["api_results"] = [None, "numpy0d", "numpy0d_int", "numpy0d_cached"][i % 4]
       model["api_extra_density_keys"] = (i % 3 == 0)
     huge = None
     if i % 8 == 3:
@@ -132,6 +136,7 @@ def run_case(case, ctx):
     ctx.count("out_of_domain")
     return
   try:
+    del routes.NUMPY0D_CACHED[:]
     text = produce(ctx, model, route, rng)
   except OverflowError as e:
     if eamref.overflow_is_out_of_domain(ref.all_functions()):
@@ -147,6 +152,10 @@ def run_case(case, ctx):
   if text is None:
     return
   ctx.count("executions")
+  if model.get("api_results"):
+    ctx.cls("api_results:" + model["api_results"])
+    if not routes.numpy0d_mutations(ctx):
+      return
   try:
     p = readers.read_tabeam(text)
   except readers.FormatError as e:
